@@ -329,9 +329,11 @@ static void update_mem_regions(struct mcount_mem_regions *regions)
 			continue;
 
 		if (strstr(next, "[heap]")) {
-			end = ROUND_UP(end, HEAP_REGION_UNIT);
-			if (end > regions->brk)
-				regions->brk = end;
+			/*
+			 * Take the heap as it is mapped: an address behind its end is
+			 * not readable (when the heap has grown the maps are read again).
+			 */
+			regions->brk = end;
 			regions->heap = start;
 		}
 		if (strstr(next, "[stack")) {
